@@ -238,103 +238,19 @@ func TestPropDeepNesting(t *testing.T) {
 	curRec = recDeep
 	defer func() { curRec = rec }()
 	ev.Check(t, 600, 12000, func(t *rapid.T) {
-		depth := rapid.IntRange(1, 320).Draw(t, "depth")
-		if rapid.Bool().Draw(t, "round") {
-			depth = rapid.SampledFrom([]int{16, 32, 50, 64, 100, 128, 200, 250, 256}).Draw(t, "base") + rapid.IntRange(-6, 6).Draw(t, "off")
-		}
+		dd := doc.GenDeep(t)
 		g := doc.NewG(t, doc.Config{})
-		g.Canon["docker#v5"] = "github.com/buildkite-plugins/docker-buildkite-plugin#v5"
-		g.Canon["my-org/thing#v1"] = "github.com/my-org/thing-buildkite-plugin#v1"
-		// innermost command step
-		tail := rapid.IntRange(0, 5).Draw(t, "tail")
-		deepening := false
-		var inner *yaml.Node
-		stepKV := []*yaml.Node{doc.StrNode("command"), doc.StrNode("echo")}
-		// how many of the levels are spent on data nested inside the innermost step
-		dataLevels := 0
-		if rapid.Bool().Draw(t, "data") {
-			dataLevels = rapid.IntRange(0, depth).Draw(t, "datalevels")
+		for k, v := range dd.Canon {
+			g.Canon[k] = v
 		}
-		leaf := func() *yaml.Node {
-			switch tail {
-			case 0:
-				deepening = true
-				return doc.SeqNode(true, doc.StrNode("docker#v5")) // a plugin list of one bare string (when used as plugins) / a list
-			default:
-				return doc.StrNode("leaf")
-			}
-		}
-		nest := func(n int, v *yaml.Node) *yaml.Node {
-			for i := 0; i < n; i++ {
-				if rapid.Bool().Draw(t, "seqormap") {
-					v = doc.SeqNode(true, v)
-				} else {
-					v = doc.MapNode(true, doc.StrNode("k"), v)
-				}
-			}
-			return v
-		}
-		switch tail {
-		case 0:
-			// plugins: [docker#v5] - and the data levels in another plugin's config
-			pl := doc.SeqNode(true, doc.StrNode("docker#v5"))
-			if dataLevels > 0 {
-				pl.Content = append(pl.Content, doc.MapNode(true, doc.StrNode("my-org/thing#v1"), nest(dataLevels, doc.StrNode("v"))))
-			}
-			stepKV = append(stepKV, doc.StrNode("plugins"), pl)
-			deepening = true
-		case 1:
-			stepKV = append(stepKV, doc.StrNode("cache"), doc.StrNode("vendor/"))
-			if dataLevels > 0 {
-				stepKV = append(stepKV, doc.StrNode("extra"), nest(dataLevels, doc.StrNode("v")))
-			}
-			deepening = true
-		case 2:
-			stepKV = append(stepKV, doc.StrNode("matrix"), doc.SeqNode(true, doc.StrNode("a"), doc.StrNode("b")))
-			if dataLevels > 0 {
-				stepKV = append(stepKV, doc.StrNode("extra"), nest(dataLevels, doc.StrNode("v")))
-			}
-		case 3:
-			// the data ends in a bare plugin-like list: nothing deepens inside unknown data
-			stepKV = append(stepKV, doc.StrNode("extra"), nest(dataLevels, leaf()))
-		case 4:
-			// a scalar step at the bottom of the groups
-			stepKV = nil
-		default:
-			if dataLevels > 0 {
-				stepKV = append(stepKV, doc.StrNode("extra"), nest(dataLevels, doc.StrNode("v")))
-			}
-		}
-		if stepKV == nil {
-			inner = doc.StrNode("wait")
-		} else {
-			inner = doc.MapNode(true, stepKV...)
-		}
-		// the remaining levels: nested groups (two levels each: the mapping and its step list)
-		groups := (depth - dataLevels) / 2
-		steps := doc.SeqNode(true, inner)
-		for i := 0; i < groups; i++ {
-			steps = doc.SeqNode(true, doc.MapNode(true, doc.StrNode("group"), doc.StrNode("g"), doc.StrNode("steps"), steps))
-		}
-		var root *yaml.Node
-		if rapid.Bool().Draw(t, "barelist") {
-			root = steps
-			deepening = true
-		} else {
-			root = doc.MapNode(true, doc.StrNode("steps"), steps)
-		}
-		text, err := yaml.Marshal(doc.DocNode(root))
-		if err != nil {
-			t.Fatalf("rendering: %v", err)
-		}
-		nt, ok := checkFixpoint(t, "YAML", text, g)
-		_ = nt
+		_, ok := checkFixpoint(t, "YAML", dd.Text, g)
 		if !ok {
 			return
 		}
-		recDeep.Case(ev.HashBytes(text), depth > 40 && deepening, fmt.Sprintf("groups>=%d", groups/25*25), fmt.Sprintf("datalevels>=%d", dataLevels/50*50), fmt.Sprintf("tail=%d", tail))
-		recDeep.MaybeSample(depth > 40 && deepening, func() any {
-			return map[string]any{"depth": depth, "groups": groups, "data_levels": dataLevels, "tail": tail, "text_prefix": string(text[:min(len(text), 300)])}
+		nt := dd.Depth > 40 && dd.Deepening
+		recDeep.Case(ev.HashBytes(dd.Text), nt, dd.Classes()...)
+		recDeep.MaybeSample(nt, func() any {
+			return map[string]any{"depth": dd.Depth, "groups": dd.Groups, "data_levels": dd.DataLevels, "tail": dd.Tail, "text_prefix": string(dd.Text[:min(len(dd.Text), 300)])}
 		})
 	})
 }
